@@ -16,7 +16,7 @@ for (b) is that the inner call is determined by `normalize_url(u)` (default opti
   the theorem of this file is about inputs on which it has nothing to do (`LowerInput`: the URL
   and what its escapes decode to are lower-case already).  Beyond that class (b) is FALSE for the
   model and for the implementation (`/Index.html` vs `/Index.html/index.html`: witness in
-  `Props/C03.lean`, KF-C03-6) and otherwise explored by the oracle, not proved.
+  `Props/C03.lean`, KF-C03-3) and otherwise explored by the oracle, not proved.
 -/
 namespace Ural.C03
 open Ural.Py Ural.UrlParts Ural.Quote Ural.Canonicalize Ural.Normalize Ural.Fingerprint
